@@ -430,6 +430,17 @@ func execMp(w *gwWorld, s gwStep) (map[string]any, bool) {
 			t.verb[t.partEtag(c)] = et
 		}
 		return map[string]any{"status": "ok", "etag": id}, true
+	case "UploadPartBad":
+		// the body is that of content c, the declared Content-MD5 is that of other bytes
+		cl := w.client()
+		body := t.bytes(str(a, "c"))
+		r := cl.Do(s3c.Req{Method: "PUT", Path: "/" + b + "/" + s3c.EncPath(k),
+			Query:   []s3c.KV{{K: "partNumber", V: fmt.Sprint(mpNum(a, "n"))}, {K: "uploadId", V: w.mpRealUp(str(a, "u"))}},
+			Headers: []s3c.KV{{K: "Content-Md5", V: s3c.MD5B64([]byte("c08 other bytes"))}}, Body: body})
+		if !r.OK() {
+			return errObs(r), true
+		}
+		return map[string]any{"status": "ok"}, true
 	case "UploadPartCopy":
 		cl := w.client()
 		h := []s3c.KV{{K: "X-Amz-Copy-Source", V: b + "/" + s3c.EncPath(w.key(str(a, "sk")))}}
